@@ -11,7 +11,7 @@ STD_FUNCS = {
     'max': 'VF_MAX', 'min': 'VF_MIN',
     '__builtin_expect': 'VF_EXPECT', '__builtin_unreachable': 'VF_UNREACHABLE',
     '__builtin_ctzll': 'vf_ctzll', '__builtin_clzll': 'vf_clzll', '__builtin_ctzl': 'vf_ctzll', '__builtin_clzl': 'vf_clzll',
-    '__builtin_ctz': 'vf_ctz', '__builtin_clz': 'vf_clz', '__builtin_popcountll': 'vf_popcountll',
+    '__builtin_ctz': 'vf_ctz', '__builtin_clz': 'vf_clz', '__builtin_popcountll': 'vf_popcountll', '__builtin_popcount': 'vf_popcount', '__builtin_popcountl': 'vf_popcountll',
     '__builtin_memcpy': 'memcpy', '__builtin_memset': 'memset', 'memcpy': 'memcpy', 'memset': 'memset',
     'memmove': 'memmove', '__builtin_memmove': 'memmove',
 }
